@@ -1810,14 +1810,17 @@ class CodeGenerator(NodeVisitor):
                 self.write("))")
 
     def visit_Slice(self, node: nodes.Slice, frame: Frame) -> None:
-        if node.start is not None:
-            self.visit(node.start, frame)
-        self.write(":")
-        if node.stop is not None:
-            self.visit(node.stop, frame)
-        if node.step is not None:
-            self.write(":")
-            self.visit(node.step, frame)
+        # written as a slice object so that it is also valid as an item of
+        # a subscript tuple (``x[1:2, 3]``), where ``1:2`` is not an expression
+        self.write("slice(")
+        for idx, child in enumerate((node.start, node.stop, node.step)):
+            if idx:
+                self.write(", ")
+            if child is None:
+                self.write("None")
+            else:
+                self.visit(child, frame)
+        self.write(")")
 
     @contextmanager
     def _filter_test_common(
